@@ -184,6 +184,15 @@ func main() {
 						h += 222 // a header field differs from the bytes at its offset
 					}
 				}
+				// the auto-detecting loader on other formats in between (goroutines alternate formats)
+				if md, _, err := autometa.Load(bytes.NewReader(pngs[(g+k)%3])); err == nil {
+					h += uint64(md.PixelWidth) * 3
+				} else {
+					h += 555
+				}
+				if _, _, err := autometa.Load(bytes.NewReader([]byte("RIFF\x04\x00\x00\x00WEBP"))); err == nil {
+					h += 777
+				}
 				// metadata loaders
 				if file != nil {
 					md, _, err := autometa.Load(bytes.NewReader(file))
